@@ -102,6 +102,7 @@ pub const ALPHABETS: &[&[&str]] = &[
     &["a", "b.txt", ".c", "d e", "f.tar.gz", "g-h", "i_j", "K"],
     &["é", "日本", "😀", "añb", "ü.txt", "x", "y", "ß"],
     &["a", "b", "c", "dd", "d", "a.b", "a-b", "ab"],
+    &["a", "b ", " c", "d\t", "e", "f", "g", "\u{a0}h"],
 ];
 
 pub const HOSTILE: &[&str] = &[
@@ -195,7 +196,7 @@ pub fn make_env(names: &[String], rng: &mut Rng) -> Env {
 
 impl Gen {
     pub fn new(profile: Profile, run_tag: String, rng: &mut Rng) -> Gen {
-        let alpha = ALPHABETS[rng.weighted(&[5, 2, 2, 2])];
+        let alpha = ALPHABETS[rng.weighted(&[10, 4, 4, 4, 1])];
         let n = rng.range(3, alpha.len().min(8));
         let mut names: Vec<String> = alpha.iter().take(n).map(|s| s.to_string()).collect();
         if rng.chance(1, 25) {
@@ -618,6 +619,23 @@ impl Gen {
                 q.push(Op::ReadAll { p: "/B/w".into() });
                 q.push(Op::Copy { s: "/B/big".into(), d: "/B/copy".into() });
                 q.push(Op::ReadAll { p: "/B/copy".into() });
+                // more lines than any batch size, the last one empty
+                let k = *rng.pick(&[512usize, 513, 1024, 1500]);
+                let mut ls: Vec<String> = (0..k).map(|i| format!("line {}", i)).collect();
+                ls.push(String::new());
+                q.push(Op::WriteLines { p: "/B/lines".into(), ls: ls.clone() });
+                q.push(Op::AppendLines { p: "/B/lines".into(), ls });
+                q.push(Op::ReadAll { p: "/B/lines".into() });
+                // the read_all macro on text that differs only after the first 64 KiB
+                if self.profile.name != "assert-macros" {
+                    // (only the macro workload calls macros)
+                } else if let Ok(text) = String::from_utf8(d.clone()) {
+                    q.push(Op::WriteAll { p: "/B/text".into(), d: Bytes(d.clone()) });
+                    let mut near = text.clone();
+                    near.push('!');
+                    q.push(Op::Macro { name: "read_all".into(), a: "/B/text".into(), b: None, mode: None, d: Some(Bytes(text.into_bytes())) });
+                    q.push(Op::Macro { name: "read_all".into(), a: "/B/text".into(), b: None, mode: None, d: Some(Bytes(near.into_bytes())) });
+                }
             },
         }
         let n = q.len();
@@ -678,6 +696,15 @@ impl Gen {
                         format!("/$RV_UNSET/{}", n),
                         format!("/{}/${{}}", n),
                         format!("/{}$", n),
+                        // relative text after a protocol marker that changes length when lowercased
+                        format!("file://\u{130}stanbul/{}", n),
+                        format!("FTP://\u{212a}x/{}", n),
+                        format!("https://\u{1e9e}/{}", n),
+                        // blanks at the edges belong to the name
+                        format!("{} ", n),
+                        format!(" {}", n),
+                        format!("/{}/\t{}", n, n),
+                        " ".to_string(),
                         "file://~".to_string(),
                         format!("file://~/{}", n),
                         format!("HTTPS://~/{}", n),
@@ -893,6 +920,9 @@ impl Gen {
                     let r = if tcanon == lp { ".".to_string() } else { refpath::relative(&tcanon, &lp) };
                     if rng.chance(1, 4) {
                         format!("./{}", r)
+                    } else if self.profile.name == "symlinks" && rng.chance(1, 10) {
+                        // climbing further than the link is deep: clamped at the root, like a path
+                        format!("{}{}", "../".repeat(crate::tree::depth(&lp) + rng.range(1, 2)), tcanon.trim_start_matches('/'))
                     } else {
                         r
                     }
